@@ -638,6 +638,23 @@ func (e *specEnv) evalCall(s *SpecExpr) (Term, types.Type) {
 		case "zero":
 			t := x.resolveType(e.pkg, specTypeText(args[0]))
 			return x.zero(t), t
+		case "called":
+			// called("Name"): how many calls of the function (short name or full external name) happened so far on this path
+			if args[0].Kind != "str" {
+				e.fail("called() needs a string literal")
+			}
+			if v, ok := e.st.ghost["called:"+args[0].Val]; ok {
+				return v, intT
+			}
+			return intLit(0), intT
+		case "lastErr":
+			if args[0].Kind != "str" {
+				e.fail("lastErr() needs a string literal")
+			}
+			if v, ok := e.st.ghost["lasterr:"+args[0].Val]; ok {
+				return v, types.Universe.Lookup("error").Type()
+			}
+			return intLit(-1), types.Universe.Lookup("error").Type() // never called: not nil
 		case "exited":
 			return e.ghostBool("exited"), boolT
 		}
